@@ -691,6 +691,10 @@ package motion
 // cl(v, T), so two values at or below T are indistinguishable.
 //@ lemma [C08] coldClamp := forall v int, w int, t int, b int :: v <= t && w <= t ==> cl(v, t) == cl(w, t) && dabs(cl(v, t), cl(b, t)) == dabs(cl(w, t), cl(b, t)) && dabs(cl(b, t), cl(v, t)) == dabs(cl(b, t), cl(w, t)) && dwarm(cl(v, t), cl(b, t)) == dwarm(cl(w, t), cl(b, t)) && dwarm(cl(b, t), cl(v, t)) == dwarm(cl(b, t), cl(w, t))
 
+// The motion settings reach the detector as they were read: validation changes nothing.
+//@ func validateConfig
+//@   ensures [C07,C08,C11,C13,C15] result == nil
+
 //@ func NewConfig
 //@   mode permissive
 //@   allocates
